@@ -1095,7 +1095,8 @@ func (l *LineWrapper) wrapNextLine(config lineConfig) (done bool) {
 		if !ok {
 			break
 		}
-		switch result, candidateRun := l.processBreakOption(option, config); result {
+		wordResult, candidateRun := l.processBreakOption(option, config)
+		switch wordResult {
 		case breakInvalid:
 			if option.breakAtRune >= l.lineStartRune { // refused because of the glyph clusters
 				l.breaker.rejectWordOption()
@@ -1196,7 +1197,17 @@ func (l *LineWrapper) wrapNextLine(config lineConfig) (done bool) {
 		}
 		if !l.scratch.hasBest() && !config.truncating {
 			// no grapheme boundary can be used before the end of the segment (it lies inside a
-			// grapheme cluster): try the next segment rather than returning an empty line
+			// grapheme cluster)
+			if wordResult == cannotFit {
+				// the segment is the first of the line: use it whole, as the next one may fit on its own line
+				l.restore()
+				if result, candidateRun := l.processBreakOption(option, config); result == cannotFit {
+					l.scratch.markCandidateBest(candidateRun)
+					return false
+				}
+				l.restore()
+			}
+			// try the next segment rather than returning an empty line
 			continue
 		}
 		return false
